@@ -11,7 +11,7 @@ from vlib.selmodel import Spell, esc_ident, mixcase
 
 IDENTS = ['red', 'blue', 'auto', 'none', 'inherit', 'solid', 'serif', 'Arial', 'bold', 'x-large', 'left', 'é-x', '_k']
 UNITS = ['px', 'em', 'ex', 'cm', 'mm', 'in', 'pt', 'pc', 'deg', 's', 'ms', 'hz', 'dpi', 'rem', 'vw']
-NUMS = ['0', '1', '2', '10', '0.5', '1.25', '100', '-1', '-0.5', '+2', '3.75']
+NUMS = ['0', '1', '2', '10', '0.5', '1.25', '100', '-1', '-0.5', '+2', '3.75', '10.5', '20.25', '-10.5', '100.75', '0.05', '-100.05']
 STRINGS = ['', 'a', 'a b', 'x;y', 'it"s', "it's", '{', '}', 'é', 'a/*b*/c', 'url(x)', '@import', 'a\nb', ')']
 URLS = ['x.png', 'a/b.css', 'http://example.com/i.gif?x=1#f', 'a b.png', "q'.png", 'p(1).png', 'é.png', '']
 HASHES = ['#fff', '#FFF', '#a1b2c3', '#AbCdEf', '#000', '#123456']
@@ -83,8 +83,15 @@ def block(draw, max_items=4, min_items=0):
         if draw(st.integers(0, 5)) == 0:
             items.append({'k': 'comment', 'text': draw(comment_text)})
         else:
-            items.append({'k': 'decl', 'name': draw(st.sampled_from(PROPS)), 'value': draw(value()),
-                          'important': draw(st.integers(0, 3)) == 0})
+            used = [i['name'] for i in items if i['k'] == 'decl']
+            if used and draw(st.integers(0, 2)) == 0:
+                # the same property again (cascade within the block)
+                name = draw(st.sampled_from(used))
+                important = draw(st.booleans())
+            else:
+                name = draw(st.sampled_from(PROPS))
+                important = draw(st.integers(0, 3)) == 0
+            items.append({'k': 'decl', 'name': name, 'value': draw(value()), 'important': important})
     return items
 
 
